@@ -196,8 +196,9 @@ func (s *Srv) Stop() {
 	s.gs = nil
 	s.mu.Unlock()
 	if gs != nil {
-		close(done)
+		// tear the connections down first: parked handlers must not get an answer out before the crash
 		gs.Stop()
+		close(done)
 		s.reserve()
 	}
 }
